@@ -525,8 +525,10 @@ func (e *Encoder) symVal(name string, t types.Type) *SVal {
 		v.T = c.Sym(name, scalarSort(t))
 	case KSlice:
 		v.Base, v.Off, v.Len, v.Cap = c.Sym(name+".base", RefS), c.Sym(name+".off", BV64), c.Sym(name+".len", BV64), c.Sym(name+".cap", BV64)
+		e.inputObject(v.Base)
 	case KString:
 		v.Base, v.Off, v.Len = c.Sym(name+".base", RefS), c.Sym(name+".off", BV64), c.Sym(name+".len", BV64)
+		e.inputObject(v.Base)
 	case KPtr, KMap, KOpaque:
 		v.T = c.Sym(name, RefS)
 	case KIface, KFunc:
@@ -551,12 +553,16 @@ func (e *Encoder) typeInvariant(v *SVal) {
 		if v.Len.IsLit() && v.Cap.IsLit() && v.Off.IsLit() {
 			return
 		}
-		e.assumeFact(c.And(c.BVCmp("bvule", v.Len, v.Cap), c.BVCmp("bvule", v.Cap, lim), c.BVCmp("bvule", v.Off, lim)))
+		f := c.And(c.BVCmp("bvule", v.Len, v.Cap), c.BVCmp("bvule", v.Cap, lim), c.BVCmp("bvule", v.Off, lim))
+		e.tiFacts[f] = true
+		e.assumeFact(f)
 	case KString:
 		if v.Len.IsLit() && v.Off.IsLit() {
 			return
 		}
-		e.assumeFact(c.And(c.BVCmp("bvule", v.Len, lim), c.BVCmp("bvule", v.Off, lim)))
+		f := c.And(c.BVCmp("bvule", v.Len, lim), c.BVCmp("bvule", v.Off, lim))
+		e.tiFacts[f] = true
+		e.assumeFact(f)
 	}
 }
 
@@ -683,4 +689,14 @@ func (e *Encoder) stringEq(a, b *SVal) *Term {
 	k := c.Bound("k", BV64)
 	body := c.Implies(c.BVCmp("bvult", k, a.Len), c.Eq(c.Select(c.Select(mem, a.Base), c.BVBin("bvadd", a.Off, k)), c.Select(c.Select(mem, b.Base), c.BVBin("bvadd", b.Off, k))))
 	return c.And(c.Eq(a.Len, b.Len), c.Forall([]*Term{k}, body))
+}
+
+// inputObject: the backing array of an input slice/string is nil or a whole
+// object that existed before the call and was not created by a package
+// initialiser (ids in [0, A0)). Stated assumption; it is what the syntactic
+// disjointness rules of the simplifier rely on.
+func (e *Encoder) inputObject(base *Term) {
+	c := e.c
+	id := c.RootID(base)
+	e.assumeFact(c.Or(c.Eq(base, c.NilRef()), c.And(c.IsRoot(base), c.IntLe(c.Int(0), id), c.IntLt(id, e.A0))))
 }
